@@ -510,6 +510,13 @@ def cases(tier):
                 cov = model in COVERS
                 yield dict(base, tag="single node", k=1, edges=[], nodes={a: 2}, isolated=[a] if cov else [])
                 yield dict(base, tag="edge + isolated node", k=2, edges=[[a, b, None]], nodes={a: 2, b: 2, c3: 1}, isolated=[c3] if cov else [])
+    # node names that look like expanded names or numbers ('10', '1', '1.0', '0'): the expansion v -> v.0 / v.1 and its inverse must not confuse them
+    for model in DAG_K + DAG_MIN + CYC_K + CYC_MIN:
+        base = dict(model=model, names="N3", origin="node", wt="int", starts=[], ends=[], ignore=[], opts={}, cons=[], cov=1.0)
+        nm = ("1", "10", "1.0", "0", "100")
+        yield dict(base, tag="number-like names, path", k=1, edges=[[nm[0], nm[1], None], [nm[1], nm[2], None], [nm[2], nm[3], None]], nodes={v: 2 for v in nm[:4]}, isolated=[])
+        yield dict(base, tag="number-like names, diamond", k=2, edges=[[nm[1], nm[0], None], [nm[1], nm[4], None], [nm[0], nm[3], None], [nm[4], nm[3], None]],
+                   nodes={nm[1]: 2, nm[0]: 1, nm[4]: 1, nm[3]: 2}, isolated=[])
 
 
 # ---------------------------------------------------------------------------------------------------------------------
